@@ -33,6 +33,7 @@ type params struct {
 	Many     bool // longer per-writer histories (FIFO)
 	Decoded  bool // forwarded frames carry decoded messages (encoded by Node.encodeFrame in the caller)
 	Requeue  bool // a reconnecting endpoint: items queued for the dead channel must not reach the new connection
+	Reuse    bool // the application reuses one message struct (fill, send, fill again) over a transport that stalls for a while
 }
 
 func (p params) name() string {
@@ -58,22 +59,25 @@ func (p params) name() string {
 	if p.Requeue {
 		s += "/requeue"
 	}
+	if p.Reuse {
+		s += "/reuse"
+	}
 	return s
 }
 
 type exec struct {
-	p        params
-	log      sx.Log
-	conns    [3]*vnet.FakeConn
-	dead     *vnet.FakeConn
-	chans    [3]*gomavlib.Channel
-	deadCh   *gomavlib.Channel
-	deadClosed bool
-	problems []string
-	finished bool
+	p           params
+	log         sx.Log
+	conns       [3]*vnet.FakeConn
+	dead        *vnet.FakeConn
+	chans       [3]*gomavlib.Channel
+	deadCh      *gomavlib.Channel
+	deadClosed  bool
+	problems    []string
+	finished    bool
 	writersDone int
 	// submission log: per target channel index, items in submission order per writer
-	want [3][]string // multiset expected per channel: "w<writer>:<n>"
+	want      [3][]string // multiset expected per channel: "w<writer>:<n>"
 	perWriter [3]map[int][]string
 }
 
@@ -130,7 +134,7 @@ func (e *exec) requeue() {
 	vmc.Await("first channel", func() bool { return len(chans) >= 1 })
 	old := chans[0]
 	for i := 1; i <= 4; i++ {
-		n.WriteMessageTo(old, ping(i)) //nolint
+		n.WriteMessageTo(old, ping(i))  //nolint
 		n.WriteMessageAll(ping(10 + i)) //nolint
 	}
 	c1.FailRead(io.EOF) // the port dies with items still queued
@@ -147,7 +151,7 @@ func (e *exec) requeue() {
 	vmc.AddWake(vmc.Now().Add(2*time.Second), "settle")
 	target := vmc.NowNS() + int64(2*time.Second)
 	vmc.Await("settled", func() bool { return vmc.NowNS() >= target })
-	frames, prob := sx.ParseWire(c2.Written)
+	frames, prob := sx.ParseConn(c2)
 	if prob != "" {
 		e.problems = append(e.problems, "ser2: "+prob)
 	}
@@ -165,6 +169,66 @@ func (e *exec) requeue() {
 	n.Close()
 }
 
+// reuse: the standard telemetry loop - one message struct, filled and written again and again -
+// over two custom transports, one of which stalls inside its first Write for a chosen time
+// (nothing, 1 s, longer than the node's WriteTimeout) and then completes. An item is what the
+// struct held when Write* returned: every transport must carry 1..5 in order, each once, as
+// whole frames, whatever the stall.
+func (e *exec) reuse() {
+	stall := []time.Duration{0, time.Second, 12 * time.Second, 25 * time.Second}[vmc.Choose(4, "first-write-stalls-for")]
+	a := &vnet.FakeConn{Name: "A"}
+	if stall > 0 {
+		a.WriteStallAt, a.WriteStallFor = 1, stall
+	}
+	b := &vnet.FakeConn{Name: "B"}
+	n := &gomavlib.Node{Dialect: sx.Dialect(), OutVersion: gomavlib.V2, OutSystemID: 10, OutComponentID: 20, HeartbeatDisable: true,
+		Endpoints: []gomavlib.EndpointConf{gomavlib.EndpointCustom{ReadWriteCloser: a}, gomavlib.EndpointCustom{ReadWriteCloser: b}}}
+	if err := n.Initialize(); err != nil {
+		e.problems = append(e.problems, "Initialize: "+err.Error())
+		return
+	}
+	opens := 0
+	vmc.GoApp("consumer", func() {
+		e.log.Consume(n, -1, func(ev gomavlib.Event) {
+			if _, ok := ev.(*gomavlib.EventChannelOpen); ok {
+				opens++
+			}
+		})
+	})
+	vmc.Await("channels open", func() bool { return opens >= 2 })
+	m := &common.MessagePing{TimeUsec: 3}
+	for i := 1; i <= 5; i++ {
+		m.Seq = uint32(i)
+		if err := n.WriteMessageAll(m); err != nil {
+			e.problems = append(e.problems, fmt.Sprintf("WriteMessageAll %d: %v", i, err))
+		}
+	}
+	m.Seq = 99 // the application goes on using its struct
+	settle := stall + 3*time.Second
+	vmc.AddWake(vmc.Now().Add(settle), "settle")
+	target := vmc.NowNS() + int64(settle)
+	vmc.Await("settled", func() bool { return vmc.NowNS() >= target })
+	for _, c := range []*vnet.FakeConn{a, b} {
+		frames, prob := sx.ParseConn(c)
+		if prob != "" {
+			e.problems = append(e.problems, c.Name+": "+prob)
+			continue
+		}
+		var got []string
+		for _, f := range frames {
+			num, _ := ref.PingSeq(f.Payload, f.V2)
+			got = append(got, fmt.Sprint(num))
+		}
+		if fmt.Sprint(got) != "[1 2 3 4 5]" {
+			e.problems = append(e.problems, fmt.Sprintf("transport %s (first Write stalled for %v) carries %v, the application submitted 1 2 3 4 5 (one struct, refilled after every Write call returned)", c.Name, c.WriteStallFor, got))
+		}
+		if pr := sx.CheckOriginated(frames, 10, 20, true, nil, 0); pr != "" {
+			e.problems = append(e.problems, c.Name+": "+pr)
+		}
+	}
+	n.Close()
+}
+
 func (e *exec) Body() {
 	sx.ResetGlobals()
 	vrand.Next = 0x5C
@@ -172,6 +236,11 @@ func (e *exec) Body() {
 	decodedFrames = p.Decoded
 	if p.Requeue {
 		e.requeue()
+		e.finished = true
+		vmc.Finish()
+	}
+	if p.Reuse {
+		e.reuse()
 		e.finished = true
 		vmc.Finish()
 	}
@@ -258,8 +327,8 @@ func (e *exec) Body() {
 			rec(2, b+4, 0, 1, 2)
 			n.WriteMessageExcept(e.chans[2], ping(b+5)) //nolint
 			rec(2, b+5, 0, 1)
-			n.WriteMessageTo(foreign, ping(b+6)) //nolint  foreign channel: ignored
-			n.WriteFrameTo(e.chans[1], fwd(b+7, v2))     //nolint
+			n.WriteMessageTo(foreign, ping(b+6))     //nolint  foreign channel: ignored
+			n.WriteFrameTo(e.chans[1], fwd(b+7, v2)) //nolint
 			rec(2, b+7, 1)
 		}
 		e.writersDone++
@@ -276,7 +345,7 @@ func (e *exec) Body() {
 
 func (e *exec) check() {
 	for i, c := range e.conns {
-		frames, prob := sx.ParseWire(c.Written)
+		frames, prob := sx.ParseConn(c)
 		if prob != "" {
 			e.problems = append(e.problems, fmt.Sprintf("transport %d: %s", i, prob))
 			continue
@@ -330,7 +399,7 @@ func (e *exec) check() {
 	// (x4) or to a foreign channel (x6) must not appear anywhere
 	all := append([]*vnet.FakeConn{e.dead}, e.conns[:]...)
 	for _, c := range all {
-		frames, _ := sx.ParseWire(c.Written)
+		frames, _ := sx.ParseConn(c)
 		for _, f := range frames {
 			if num, ok := ref.PingSeq(f.Payload, f.V2); ok && f.Sys == 10 && (num%10 == 4 && num < 50 || num%10 == 6 && num >= 50) {
 				e.problems = append(e.problems, fmt.Sprintf("item %d was addressed to a closed / foreign channel but reached transport %s", num, c.Name))
@@ -378,7 +447,7 @@ func (e *exec) Outcome(r *vmc.Result) string {
 		if c == nil {
 			continue
 		}
-		fr, _ := sx.ParseWire(c.Written)
+		fr, _ := sx.ParseConn(c)
 		var ids []string
 		for _, f := range fr {
 			n, _ := ref.PingSeq(f.Payload, f.V2)
@@ -391,7 +460,7 @@ func (e *exec) Outcome(r *vmc.Result) string {
 
 func variants(thorough bool) []sx.Variant {
 	ps := []params{{}, {Signed: true}, {V1: true}, {Incoming: true}, {Closing: true}, {Many: true}, {Signed: true, Incoming: true, Many: true},
-		{Decoded: true}, {Decoded: true, V1: true}, {Requeue: true}}
+		{Decoded: true}, {Decoded: true, V1: true}, {Requeue: true}, {Reuse: true}}
 	var out []sx.Variant
 	for _, p := range ps {
 		p := p
